@@ -406,6 +406,14 @@ func c12LoginHistory(t *testing.T, out *vfOut, rnd *vfRand, users []webUser, nam
 		recBefore, hadBefore := ab.failedAuths[addr]
 		nsessBefore := len(auth.sessions)
 		v0 := vnow()
+		// the machine may have stalled since the instant was chosen: no
+		// deadline of the table may lie near the instant actually used
+		for _, r := range ab.failedAuths {
+			if x := rel(r.until) - v0; x > -int64(margin)/2 && x < int64(margin)/2 {
+				out.Class("login-discarded-jitter")
+				return
+			}
+		}
 		w := httptest.NewRecorder()
 		globalContext.mux.ServeHTTP(w, req)
 		v1 := vnow()
